@@ -337,11 +337,37 @@ def call(thunk, timeout=10):
 
 
 class Ctl:
-    """Controls: does an operation have the effect on the *unrestricted* node at the same path?"""
+    """Controls: does an operation have the effect on the *unrestricted* node at the same path?
+
+    Controls only decide whether a case counts as non-trivial, so they are deferred: `pending` collects
+    (case key, control key) and `settle` evaluates the controls after the exploration (within a time limit; cases whose
+    control was not evaluated are counted as trivial).
+    """
 
     def __init__(self, env):
         self.env = env
         self.cache = {}
+        self.pending = []
+
+    def later(self, casekey, suite, path, cls, opname):
+        self.pending.append((casekey, (suite, path, cls, opname)))
+
+    def settle(self, rec, deadline):
+        todo = {}
+        for casekey, ck in self.pending:
+            todo.setdefault(ck, []).append(casekey)
+        skipped = 0
+        for ck, casekeys in sorted(todo.items(), key=lambda kv: -len(kv[1])):
+            if ck not in self.cache and time.time() > deadline:
+                skipped += 1
+                for k in casekeys:
+                    rec.case(k, nontrivial=False)
+                continue
+            eff = True if ck[3] in ("parent", "file") and ck[0] == "up" else self.effective(*ck)
+            for k in casekeys:
+                rec.case(k, nontrivial=eff)
+        self.pending = []
+        return skipped
 
     def effective(self, suite, path, cls, opname):
         key = (suite, path, cls, opname)
@@ -419,6 +445,10 @@ def explore(rec, env, ctl, start, flags, max_depth, deadline, stats, seen_suites
         skey = (kind, state[0], state[1], state[2], state[3][:1], local_root, prim)
         if skey not in seen_suites:
             seen_suites.add(skey)
+            akey = ("acl",) + skey[:-1]
+            if spec["steps"] and akey not in seen_suites:
+                seen_suites.add(akey)
+                _acl_laws(rec, env, spec, stats)  # restrict()/acl laws hold on derived wrappers as well
             suites(rec, env, ctl, spec, state, local_root, stats)
 
     run_suites(spec0, node_state(n0), "start")
@@ -541,27 +571,24 @@ def suites(rec, env, ctl, spec, state, local_root, stats):
     # ---------- read_only: every mutating op raises, raw dump unchanged
     if "read_only" in flags:
         n = node()
-        # controls first: they may replace the working clone, which invalidates every wrapper obtained before
-        effs = {nm: ctl.effective("mut", path, cls, nm) for nm in list(mutating_ops(n, _ctx(n), local))}
-        n = node()
         ops = mutating_ops(n, _ctx(n), local)
         accepted = []
         for nm in list(ops):
             st, v = call(ops[nm])
-            eff = effs.get(nm, False)
             stats["mut_calls"] += 1
             tally("mut", st, v, nm)
-            rec.case((kind, "mut", nm, cls, flags, prim, path), nontrivial=eff)
+            ctl.later((kind, "mut", nm, cls, flags, prim, path), "mut", path, cls, nm)
             case = {"kind": kind, "what": "mut", "spec": spec, "op": nm}
             if st != "raised":
                 accepted.append(nm)
                 changed = env.changed()
-                # returning without raising is a violation iff the op mutates on an unrestricted node, or it changed something here
-                rec.check(not (eff or changed), f"c15:read_only:accepted:{nm}", f"{nm} on a read_only {cls}-node {path} (flags {flags}, chain {spec['steps']}) did not raise ({st}); container changed: {changed} ({kind})", case=case, fns=[fn_w + "MetadorGroup", fn_w + "MetadorDataset", fn_w + "WrappedAttributeManager", "container/interface.py:MetadorMeta"])
                 if changed:
                     env.fresh()
-                    n = node()
-                    ops = mutating_ops(n, _ctx(n), local)
+                eff = ctl.effective("mut", path, cls, nm)  # (may replace the working clone)
+                # returning without raising is a violation iff the op mutates on an unrestricted node, or it changed something here
+                rec.check(not (eff or changed), f"c15:read_only:accepted:{nm}", f"{nm} on a read_only {cls}-node {path} (flags {flags}, chain {spec['steps']}) did not raise ({st}); container changed: {changed} ({kind})", case=case, fns=[fn_w + "MetadorGroup", fn_w + "MetadorDataset", fn_w + "WrappedAttributeManager", "container/interface.py:MetadorMeta"])
+                n = node()
+                ops = mutating_ops(n, _ctx(n), local)
             else:
                 rec.evaluations += 1
         if env.changed():  # raised, but with effect -> localise
@@ -586,34 +613,50 @@ def suites(rec, env, ctl, spec, state, local_root, stats):
         else:
             rec.evaluations += 1  # raw dump unchanged after the whole batch
             stats["unchanged_checks"] += 1
+    # ---------- nodes derived by creating primitives (only possible without read_only) inherit the flags too
+    ckey = (kind, path, flags, lp[:1], local_root)
+    if "read_only" not in flags and cls == "g" and flags and ckey not in stats.setdefault("seen_create", set()):
+        stats["seen_create"].add(ckey)
+        n = node()
+        for nm, th in (("create_group", lambda: n.create_group("zz_cg")), ("create_dataset", lambda: n.create_dataset("zz_cd", data=1)), ("require_group_new", lambda: n.require_group("zz_rg")), ("require_dataset_new", lambda: n.require_dataset("zz_rd", shape=(), dtype="int64"))):
+            st, r = call(th)
+            stats["create_calls"] = stats.get("create_calls", 0) + 1
+            if st != "ok":
+                rec.evaluations += 1
+                continue
+            rec.case((kind, "create", nm, flags, prim, path), nontrivial=True)
+            case = {"kind": kind, "what": "create", "spec": spec, "op": nm}
+            if not isinstance(r, MetadorNode):
+                rec.check(False, f"c15:nav:unwrapped:{nm}", f"{nm} on a {flags} node returned a raw {type(r).__name__} ({kind})", case=case)
+                continue
+            rst = node_state(r)
+            missing = [f for f in flags if f not in rst[2]]
+            rec.check(not missing, f"c15:nav:flag-lost:{nm}:{'+'.join(missing)}", f"node created by {nm} on a node with flags {flags} at {path} has flags {rst[2]} ({kind})", case=case, fns=[fn_w + "_wrap_method"])
+            if local_root is not None:
+                rec.check(under(rst[1], local_root), f"c15:nav:above-local-root:{nm}", f"{nm} on local_only subtree {local_root} produced {rst[1]} ({kind})", case=case)
+        env.fresh()
     # ---------- skel_only: reading ops never yield
     if "skel_only" in flags:
-        n = node()
-        effs = {nm: ctl.effective("read", path, cls, nm) for nm in list(reading_ops(n, _ctx(n)))}
         n = node()
         ops = reading_ops(n, _ctx(n))
         for nm, th in ops.items():
             st, v = call(th)
-            eff = effs.get(nm, False)
             stats["read_calls"] += 1
             tally("read", st, v, nm)
-            rec.case((kind, "read", nm, cls, flags, prim, path), nontrivial=eff)
+            ctl.later((kind, "read", nm, cls, flags, prim, path), "read", path, cls, nm)
             yields = st == "ok" and v is not None and not (isinstance(v, (list, dict)) and len(v) == 0)
             rec.check(not yields, f"c15:skel_only:yields:{nm}", f"{nm} on a skel_only {cls}-node {path} (flags {flags}, chain {spec['steps']}) returned {repr(v)[:80]} ({kind})", case={"kind": kind, "what": "read", "spec": spec, "op": nm}, fns=[fn_w + "MetadorDataset.__getitem__", fn_w + "WrappedAttributeManager", "container/interface.py:MetadorMeta.get"])
     # ---------- local_only: upward ops raise (and have no effect)
     if local:
         n = node()
         is_root = len(lp) == 0
-        effs = {nm: (ctl.effective("up", path, cls, nm) if nm not in ("parent", "file") else True) for nm in list(upward_ops(n, _ctx(n), is_root))}
-        n = node()
         ops = upward_ops(n, _ctx(n), is_root)
         for nm in list(ops):
             th, mut = ops[nm]
             st, v = call(th)
-            eff = effs.get(nm, False)
             stats["up_calls"] += 1
             tally("up", st, v, nm)
-            rec.case((kind, "up", nm, cls, flags, prim, path), nontrivial=eff)
+            ctl.later((kind, "up", nm, cls, flags, prim, path), "up", path, cls, nm)
             escaped = st != "raised" and not (nm == "abs_contains" and v is None)
             if escaped and isinstance(v, MetadorNode) and local_root is not None and nm != "file":
                 try:
@@ -667,14 +710,15 @@ def run(tier: str, seed: int) -> dict:
     quick = tier == "quick"
     total = 52.0 if quick else 540.0
     max_depth = 3 if quick else 4
-    plan = [("h5", 0.6), ("ih5", 0.4)]
+    plan = [("h5", 0.45), ("ih5", 0.55)] if quick else [("h5", 0.4), ("ih5", 0.6)]
     t0 = time.time()
     reached = {}
     with tmpdir(prefix=TMP_PREFIX) as d:
         t_kind = t0
         for kind, share in plan:
-            t_end = t_kind + total * share
+            t_end = (t0 + total) if kind == plan[-1][0] else min(t_kind, time.time()) + total * share
             t_kind = t_end
+            t_k0 = time.time()
             env = Env(kind, d)
             ctl = Ctl(env)
             stats = {"edges": 0, "nav_refused": 0, "mut_calls": 0, "read_calls": 0, "up_calls": 0, "unchanged_checks": 0, "exc": {}, "depth_reached": 0, "closed": 0, "unresolved": 0, "starts_done": 0, "expanded": set()}
@@ -683,17 +727,22 @@ def run(tier: str, seed: int) -> dict:
                 env.fresh()
                 # controls: unrestricted nodes at every start accept the same suites (sanity of the fixture)
                 order = [(s, COMBOS[(r + si) % len(COMBOS)]) for r in range(len(COMBOS)) for si, s in enumerate(STARTS)]
+                t_explore = t_k0 + (t_end - t_k0) * 0.7  # the rest is for the deferred controls
                 for start, flags in order:
-                    if time.time() > t_end or rec.full:
+                    if time.time() > t_explore or rec.full:
                         break
-                    explore(rec, env, ctl, start, flags, max_depth, t_end, stats, seen_suites)
+                    explore(rec, env, ctl, start, flags, max_depth, t_explore, stats, seen_suites)
                     stats["starts_done"] += 1
+                env.fresh()
+                stats["controls_skipped"] = ctl.settle(rec, t_end)
                 rec.notes += [f"{kind}: {n}" for n in probe_notes(env)]
             finally:
                 env.close()
+            stats["time_s"] = round(time.time() - t_k0, 1)
             stats["starts_total"] = len(COMBOS) * len(STARTS)
-            stats["suite_states"] = len(seen_suites)
+            stats["suite_states"] = sum(1 for k in seen_suites if k[0] != "acl")
             stats["clones"] = env.clones
+            stats.pop("seen_create", None)
             stats["expanded"] = len(stats["expanded"])
             stats["effective_controls"] = sum(1 for v in ctl.cache.values() if v)
             stats["controls"] = len(ctl.cache)
@@ -702,7 +751,7 @@ def run(tier: str, seed: int) -> dict:
     bound = "; ".join(
         f"{k}: {v['starts_done']}/{v['starts_total']} (start node x flag combination) explorations, chains up to depth {v['depth_reached']} (limit {max_depth}; {v['closed']} explorations reached a fixpoint of abstract states before the limit), "
         f"{v['edges']} navigation edges ({v['nav_refused']} refused), {v['suite_states']} distinct (wrapper state x producing primitive) followed by the op suites: {v['mut_calls']} mutating, {v['read_calls']} reading, {v['up_calls']} upward calls; "
-        f"{v['effective_controls']}/{v['controls']} controls effective on the unrestricted node"
+        f"{v['effective_controls']}/{v['controls']} controls effective on the unrestricted node ({v.get('controls_skipped', 0)} controls not evaluated in time: their cases count as trivial)"
         for k, v in reached.items()
     )
     return rec.result(
